@@ -73,7 +73,7 @@ def one_session(bins, root, par, fline=-1, fkind="", tag="s", timeout=1):
             sim.update(fault_req=fline, fault_kind=fkind)
         else:
             sim.update(fault_line=fline, fault_kind=fkind)
-    r = S.run_session(bins, home, typ, par["fe"], par["verb"], sim, tag=tag)
+    r = S.run_session(bins, home, typ, par["fe"], par["verb"], sim, tag=tag, verb_arg=par.get("verbspell"))
     r["files"] = S.all_files(home)
     shutil.rmtree(home, ignore_errors=True)
     return r
@@ -95,6 +95,9 @@ def to_trace(tid, par, r, fline, fkind, joined2):
                        "line": x["line"], "foreign": foreign})
         elif x.get("end"):
             end = x
+    if not end and par.get("verbspell") and not any("i" in x for x in r["transcript"]):
+        # the invocation was refused outright (unknown spelling of the verb): the device was never contacted
+        end = {"changes": 0, "saved": False, "reload_pending": False}
     if not end:
         raise C.Broken("simulator wrote no end record (session %s)" % tid)
     st = r["status"]
@@ -155,6 +158,10 @@ def plan_sessions(prop, tier, pars):
         elif prop == "C11":
             if p["verb"] == "compare":
                 jobs.append((p, "plain"))
+                if p["fe"] == "doapprove" and not bad and p["n"] > 0:
+                    # other spellings of the verb: refused, or a compare - never an approve
+                    for sp in ("Compare", "COMPARE"):
+                        jobs.append((dict(p, verbspell=sp), "plain"))
                 if not bad and p["n"] > 0 and (tier == "thorough" or p["fe"] == "doapprove"):
                     jobs.append((p, "faults"))
         elif prop in ("C09", "C17"):
